@@ -60,8 +60,8 @@ Theorem C05_parked_driver_is_woken :
     quiescent w -> woken w = true.
 Proof. exact (fun k w => parked_driver_woken gen_cfg k w gen_facts_ok). Qed.
 
-(* once the cell is set no driver poll started afterwards returns Pending (or anything but the error),
-   under any interleaving with anything else *)
+(* once the cell is set no driver call started afterwards -- a poll of any shape or shutdown() -- returns Pending or
+   Ok (anything but the error), under any interleaving with anything else (`run` ranges over all actions) *)
 Theorem C05_no_quiet_poll_after_error :
   forall k acts w, reachable gen_cfg k w -> cell w <> None -> dprog w = [] ->
     quiet_polls (obs (run gen_cfg acts w)) = quiet_polls (obs w).
@@ -75,14 +75,21 @@ Theorem C05_repolled_driver_reports :
       In (EReport HDriver (spec_report e)) (obs w').
 Proof. exact (fun k w e calls pend => repoll_reports gen_cfg k w e calls pend gen_facts_ok). Qed.
 
-(* a driver call that is not a poll of the connection (shutdown(), ...) and fails in the transport once the cell
-   is set returns the connection's outcome, not the error it just met *)
-Theorem C05_failed_driver_call_reports :
-  forall k w e e', reachable gen_cfg k w -> cell w = Some e -> dprog w = [] ->
-    exists n, let w' := run gen_cfg (ACall e' :: repeat AStep n) w in
+(* shutdown() once the cell is set returns the connection's outcome (and closes the transport if h3 detected it and the
+   driver had not seen it yet), whether the GOAWAY write would succeed (r = None) or fail with e' (r = Some e') *)
+Theorem C05_shutdown_reports :
+  forall k w e r, reachable gen_cfg k w -> cell w = Some e -> dprog w = [] ->
+    exists n, let w' := run gen_cfg (AShutdown r :: repeat AStep n) w in
       dprog w' = [] /\ cell w' = Some e /\ handled w' = Some (spec_report e) /\
       last_dev (trace w') = Some (EReport HDriver (spec_report e)).
-Proof. exact (fun k w e e' => failed_call_reports gen_cfg k w e e' gen_facts_ok). Qed.
+Proof. exact (fun k w e r => shutdown_reports gen_cfg k w e r gen_facts_ok). Qed.
+
+(* before commit 6ec7732 (no guard) shutdown() answered Ok(()) after the driver had reported the error *)
+Theorem C05_shutdown_without_guard_refuted :
+  let w := run (without_guard gen_cfg) quiet_shutdown_schedule (init 1) in
+  last_dev (trace w) = Some (EReport HDriver (CLocal H3_FRAME_UNEXPECTED)) /\ dprog w = [] /\
+  last_dev (trace (run (without_guard gen_cfg) [AShutdown None; AStep] w)) = Some EReadyOk.
+Proof. exact (quiet_shutdown_without_guard gen_cfg gen_facts_ok). Qed.
 
 (* the single-outcome part does not depend on the register/check order (it held before the repair) *)
 Theorem C05_single_outcome_any_order :
@@ -122,6 +129,7 @@ Example C05_three_errors_inhabited :
   r_d1 r = Some (EReport HDriver (CLocal H3_FRAME_ERROR)) /\
   r_s1 r = [Some (CLocal H3_FRAME_ERROR); Some (CLocal H3_FRAME_ERROR)] /\
   r_s2 r = [Some (CLocal H3_FRAME_ERROR); None] /\
+  r_d2s r = Some (EReport HDriver (CLocal H3_FRAME_ERROR)) /\
   r_d4 r = Some (EReport HDriver (CLocal H3_FRAME_ERROR)) /\
   r_s3 r = [Some (CLocal H3_FRAME_ERROR); Some (CLocal H3_FRAME_ERROR)] /\
   r_d3 r = Some (EReport HDriver (CLocal H3_FRAME_ERROR)) /\ r_close r = [H3_FRAME_ERROR].
@@ -139,7 +147,8 @@ Print Assumptions C05_no_lost_wakeup.
 Print Assumptions C05_parked_driver_is_woken.
 Print Assumptions C05_no_quiet_poll_after_error.
 Print Assumptions C05_repolled_driver_reports.
-Print Assumptions C05_failed_driver_call_reports.
+Print Assumptions C05_shutdown_reports.
+Print Assumptions C05_shutdown_without_guard_refuted.
 Print Assumptions C05_single_outcome_any_order.
 Print Assumptions C05_check_before_register_refuted.
 Print Assumptions C05_harness_runs_are_reachable.
